@@ -195,7 +195,7 @@ def extract(mode, rc, so, se, rules_names, data_names):
                 return obs
             for name, rep in cli.reports_from_structured(j).items():
                 obs["shown"].append({"d": didx.get(name, 0), "status": rep["status"], "pass": rep["pass"],
-                                     "fail": rep["fail"], "skip": rep["skip"]})
+                                     "fail": rep["fail"], "skip": rep["skip"], "nfail": rep["n_fail_items"]})
         elif fmt == "sarif":
             obs["view"] = "nresults"
             if not so.strip():
